@@ -26,6 +26,35 @@ def sigval(name, **f):
     return ("v", SIG, name, f)
 
 
+def delivery_table(ctx, rule):
+    """shared with C06/C08: Signal::to_nix maps each first-class signal to the nix signal with its POSIX number"""
+    facts = ctx.facts
+    nix = facts.find_adt(NIX)
+    if nix is None:
+        ctx.violation(rule, "floor:anchor:nix-signal", "nix Signal enum not found in the fact base")
+        return
+    nixd = {v["name"]: v.get("discr") for v in nix["variants"]}
+    f = ctx.anchor_fn(rule, "watchexec_signals::Signal::to_nix")
+    m = the_match(ctx, rule, f)
+    n = 0
+    for name in FIRST_CLASS:
+        i = thir.first_arm(m, sigval(name))
+        if i is None:
+            ctx.incomplete(rule, "to_nix:" + name, "undetermined arm", f.loc(m["l"]))
+            continue
+        v = thir.expr_value(m["arms"][i]["b"])
+        nv = None
+        if v[0] == "v" and v[2] == "Some":
+            inner = list(v[3].values())[0]
+            if inner[0] == "v" and inner[1] == NIX:
+                nv = inner[2]
+        n += 1
+        ctx.require(nv is not None and nixd.get(nv) == POSIX[name], rule, "delivered-signal:" + name,
+                    "a request for Signal::%s is delivered as %s (number %d)" % (name, nv, POSIX[name]), f.loc(m["arms"][i]["l"]),
+                    fail="a request to send Signal::%s delivers %s (number %s) to the process" % (name, nv, nixd.get(nv)))
+    ctx.floor(rule, "first-class signals in to_nix", n, 7)
+
+
 def run(ctx):
     ctx.level = "proof"
     ctx.exhaustive = True
